@@ -122,6 +122,7 @@ class World:
 
     def __init__(self, wf, files=None, conf=None, tracked=None, hashes=None, logs=None, sim=None, pool=None):
         self.pool = pool  # local worker pool: operation log + summary (mc.localbridge), or None
+        self.private = {}  # any other file gwf keeps under .gwf/ (none today): carried along so that caches etc. persist across invocations
         self.wf = wf
         self.files = dict(files or {})
         self.conf = conf
@@ -135,6 +136,7 @@ class World:
                   dict(self.logs), copy.deepcopy(self.sim), copy.deepcopy(self.pool))
         if hasattr(self, "hashing_intent"):
             w.hashing_intent = self.hashing_intent
+        w.private = dict(self.private)
         return w
 
     def clock(self):
@@ -260,6 +262,11 @@ class Session:
         if w.hashes is not None:
             with open(os.path.join(self.proj, ".gwf", "spec-hashes.json"), "w") as f:
                 _dump_json(w.hashes, f)
+        for rel, content in getattr(w, "private", {}).items():
+            pth = os.path.join(self.proj, ".gwf", rel)
+            os.makedirs(os.path.dirname(pth), exist_ok=True)
+            with open(pth, "w") as f:
+                f.write(content)
         for name, content in w.logs.items():
             with open(os.path.join(self.proj, ".gwf", "logs", name), "w") as f:
                 f.write(content)
@@ -453,7 +460,7 @@ class Session:
     # ------------------------------------------------------------------
     def snapshot(self) -> World:
         """Semantic read-back of the project directory."""
-        files, logs, tracked = {}, {}, {}
+        files, logs, tracked, private = {}, {}, {}, {}
         hashes = conf = None
         proj = self.proj
         unexpected = []
@@ -475,7 +482,10 @@ class Session:
                         tracked[sub[: -len("-backend-tracked.json")]] = _read_json(p)
                     elif sub == "spec-hashes.json":
                         hashes = _read_json(p)
-                    # any other file under .gwf/ is gwf's private business (lock files, caches ...): not a workflow file, not a log
+                    else:
+                        # any other file under .gwf/ is gwf's private business (lock files, caches ...): not a workflow file, not a log,
+                        # but it is state that later invocations may read
+                        private[sub] = open(p, errors="replace").read()
                     continue
                 if os.path.islink(p):
                     st = os.lstat(p)
@@ -494,6 +504,9 @@ class Session:
             unexpected.append("unjournaled-touch:" + p)
         w = World(self.world0.wf, files, conf, tracked, hashes, logs, copy.deepcopy(self.sim.s), self.live.pool_dict() if self.live is not None else None)
         w.unexpected = unexpected
+        w.private = private
+        if hasattr(self.world0, "hashing_intent"):
+            w.hashing_intent = self.world0.hashing_intent
         return w
 
 
